@@ -6,7 +6,7 @@
         matches := error("<name>",x, message ,[_result_0,...])
       }
    and of the constraint snippets whose shape is "bind the values of the path, draw one, test it": count / length
-   (count.go), pattern (pattern.go), datatype (datatype.go), numeric bounds (numericcomparison.go), `in` (scalar_superset.go), containsAll / containsSome (scalar_subset.go, scalar_intersect_set.go).  The numbers in the generated names are parameters: the
+   (count.go), pattern (pattern.go), datatype (datatype.go), numeric bounds (numericcomparison.go), `in` (scalar_superset.go), containsAll / containsSome (scalar_subset.go, scalar_intersect_set.go), property pairs (propertycomparison.go).  The numbers in the generated names are parameters: the
    correspondence run reads them off the real module and compares every line.  [*_du] is the reading of the lines as
    (variable bound, variables needed); Proofs/RuleGenProofs.v: every such rule body is safe. *)
 From ACV Require Import Base.Strs Model.Report Model.Names Model.Escape.
@@ -102,6 +102,20 @@ Definition contains_snippet (all : bool) (x src rule : string) (n1 n2 : nat) (ne
      sn_id := cid; sn_path := tpath;
      sn_value := """negated"":" ++ bool_text negated ++ ",""actual"": " ++ chk ++ "_string,""expected"": " ++ q (escape ("[" ++ join_quoted vals ++ "]"));
      sn_value_uses := [chk ++ "_string"] |}.
+
+(* ---- propertycomparison.go: two paths from the same node, every pair of values; no generated number: the variables are
+   named after the two path rules *)
+Definition cmp_snippet (x srcA ruleA srcB ruleB : string) (negated : bool) (cid op tpath : string) : snippet :=
+  let a := ruleA ++ "A" in
+  let b := ruleB ++ "B" in
+  {| sn_lines := ["#  querying path: " ++ srcA; a ++ "s = " ++ ruleA ++ " with data.sourceNode as " ++ x;
+                  "#  querying path: " ++ srcB; b ++ "s = " ++ ruleB ++ " with data.sourceNode as " ++ x;
+                  a ++ " = " ++ a ++ "s[_]"; b ++ " = " ++ b ++ "s[_]";
+                  (if negated then "" else "not ") ++ a ++ " " ++ op ++ " " ++ b];
+     sn_du := [(a ++ "s", [x]); (b ++ "s", [x]); (a, [a ++ "s"]); (b, [b ++ "s"]); ("", [a; b])];
+     sn_id := cid; sn_path := tpath;
+     sn_value := """negated"":" ++ bool_text negated ++ ", ""condition"":" ++ q op ++ ",""expected"":" ++ b ++ ", ""actual"":" ++ a ++ ", ""altPath"": " ++ q srcB;
+     sn_value_uses := [b; a] |}.
 
 (* ---- wrapBranch + the rule around it *)
 Definition trace_line (i : nat) (x : string) (s : snippet) : string :=
